@@ -1391,7 +1391,7 @@ func selectorCall(info *types.Info, c *ast.CallExpr, recvType, name string) bool
 	if !ok {
 		// the same operation written as a package-level function taking the object as a parameter
 		fn := staticCallee(info, c)
-		if fn == nil || fn.Name() != name || info == nil {
+		if fn == nil || info == nil || (funcName(fn) != name && !calleeRenamedFrom(info, c, name)) {
 			return false
 		}
 		sig, _ := fn.Type().(*types.Signature)
@@ -1408,7 +1408,7 @@ func selectorCall(info *types.Info, c *ast.CallExpr, recvType, name string) bool
 		}
 		return false
 	}
-	if se.Sel.Name != name {
+	if se.Sel.Name != name && !calleeRenamedFrom(info, c, name) {
 		return false
 	}
 	if recvType == "" {
@@ -2239,9 +2239,9 @@ func (f *FuncCFG) expand(depth int, onStack map[*types.Func]bool) {
 
 func funcKeyOf(fn *types.Func) string {
 	if rt := namedOfRecv(fn); rt != nil {
-		return rt.Obj().Name() + "." + fn.Name()
+		return rt.Obj().Name() + "." + funcName(fn)
 	}
-	return fn.Name()
+	return funcName(fn)
 }
 
 // ErrEdgesDeep: like ErrEdges, but when the call sits in an expanded helper that hands its error
